@@ -73,8 +73,12 @@ def pmap(fn, repo, items, jobs):
             out.append(val[0])
             for k, v in val[1].items():
                 FUNCS[k] = FUNCS.get(k, 0) + v
-        elif kind == 'analysis-error':
-            raise AnalysisError(val[0], val[1])
         else:
-            raise AnalysisError('internal', val)
+            # a configuration the engine could not follow: remembered, decided by the runner (a violation found on
+            # another configuration is still a violation; without one the run is analysis-broken, exit 2)
+            ERRORS.append((val[0], val[1]) if kind == 'analysis-error' else ('internal', val))
+            out.append({'cmp': 0, 'diff': 0, 'findings': [], 'sample': None, 'analysis_error': True})
     return out
+
+
+ERRORS = []         # (kind, message) of configurations that could not be analysed in this check run
